@@ -180,6 +180,7 @@ func c11Moment(w *W, st ref.Stamp, class string) {
 	add("GetSha|GetDaySha", l.GetSha(), l.GetDaySha())
 	add("Solar.GetXingzuo|GetXingZuo", l.GetSolar().GetXingzuo(), l.GetSolar().GetXingZuo())
 	ec := l.GetEightChar()
+	add("NewEightChar|GetEightChar", digest1(calendar.NewEightChar(l)), digest1(ec))
 	add("GetBaZi|EightChar", ls(l.GetBaZi()), ls([4]string{ec.GetYear(), ec.GetMonth(), ec.GetDay(), ec.GetTime()}))
 	add("GetBaZiWuXing|EightChar", ls(l.GetBaZiWuXing()), ls([4]string{ec.GetYearWuXing(), ec.GetMonthWuXing(), ec.GetDayWuXing(), ec.GetTimeWuXing()}))
 	add("GetBaZiNaYin|EightChar", ls(l.GetBaZiNaYin()), ls([4]string{ec.GetYearNaYin(), ec.GetMonthNaYin(), ec.GetDayNaYin(), ec.GetTimeNaYin()}))
